@@ -400,7 +400,7 @@ func (s *Store) Put(key []byte, value []byte) error {
 			}
 			cmpKey = true
 		}
-		if bytes.Equal(value, storedVal) {
+		if cmpKey && bytes.Equal(value, storedVal) {
 			// Trying to put the same value in an existing key, so ok to
 			// directly return. This is not needed for the blockstore, since it
 			// sets s.immutable = true.
